@@ -3,3 +3,5 @@ import G9.Generated
 import G9.Wire.Msg
 import G9.Wire.Spec
 import G9.Wire.Go
+import G9.Driver.Text
+import G9.Driver.Wire
